@@ -1,4 +1,93 @@
-(* C10/Props.v -- property theorems only. *)
+(* C10/Props.v -- property theorems only; each is closed by [exact] of a lemma
+   of C10/Proofs.v and followed by Print Assumptions.
+
+   Objects (C10/Model.v):  [heap] = buffer id -> array plus an allocation counter;
+   an element of a space is the list [ref] of the ids of its leaf arrays; [run_ip e x out h]
+   is the heap after the in-place call  e(x, out=out)  (Operator.__call__ -> _call with its
+   `x is out` tests and temporaries), [run_oop e x h] the pair (result ref, heap) of the
+   out-of-place call  e(x);  [pure e v] is the value-level meaning of the operator tree e
+   (leaves: the closed formulas of the proximal factories);  [wfop n e] says that the
+   parameters stored in e (g, element-valued sigma, constants) are elements of the space of
+   x (they have n leaf arrays) -- the condition under which the library accepts them. *)
 From Coq Require Import Reals List Bool.
-From Verif Require Import Base.Num Base.Vec C10.Model C10.Proofs.
+From Verif Require Import Base.Num Base.Vec C10.Model C10.HeapLemmas C10.Leaves C10.Leaves2 C10.Leaves3 C10.Proofs.
 Import ListNotations.
+
+(* T1 (the property).  For EVERY operator tree e over the modelled classes (every proximal
+   factory x option at the leaves; OperatorSum, OperatorVectorSum, OperatorComp,
+   OperatorPointwiseProduct, Left/RightScalarMult, Left/RightVectorMult, DiagonalOperator
+   above them, to any depth), every heap h and every element x living in it:
+   after  e(x, out=x)  the buffers of x hold exactly the value-level result computed from the
+   OLD contents of x, and no other live buffer has changed. *)
+Theorem aliased_call_ok : forall (e : op R) (h : heap R) (x : ref),
+  wfop (length x) e -> NoDup x -> below (next h) x ->
+  get (run_ip e x x h) x = pure e (get h x)
+  /\ (forall i, (i < next h)%nat -> ~ In i x -> mem (run_ip e x x h) i = mem h i).
+Proof. exact aliased_gen. Qed.
+Print Assumptions aliased_call_ok.
+
+(* T1.  The same call with a separate out (whatever out contained before): same value,
+   x itself and every other live buffer unchanged. *)
+Theorem separate_call_ok : forall (e : op R) (h : heap R) (x out : ref),
+  wfop (length x) e -> NoDup out -> below (next h) x -> below (next h) out -> dis x out ->
+  length x = length out ->
+  get (run_ip e x out h) out = pure e (get h x)
+  /\ get (run_ip e x out h) x = get h x
+  /\ (forall i, (i < next h)%nat -> ~ In i out -> mem (run_ip e x out h) i = mem h i).
+Proof. exact separate_gen. Qed.
+Print Assumptions separate_call_ok.
+
+(* T1.  The out-of-place call  e(x)  returns a NEW element holding the same value and
+   modifies nothing that existed before (trees without DiagonalOperator, see notes). *)
+Theorem out_of_place_call_ok : forall (e : op R) (h : heap R) (x : ref),
+  no_diag e -> wfop (length x) e -> below (next h) x ->
+  get (snd (run_oop e x h)) (fst (run_oop e x h)) = pure e (get h x)
+  /\ above (next h) (fst (run_oop e x h))
+  /\ (forall i, (i < next h)%nat -> mem (snd (run_oop e x h)) i = mem h i).
+Proof. exact (oop_gen Rplus_comm Rmult_comm). Qed.
+Print Assumptions out_of_place_call_ok.
+
+(* T1, literally the property text:  prox(x, out=x) leaves in x exactly the value that
+   prox(x) would have returned. *)
+Theorem aliased_equals_out_of_place : forall (e : op R) (h : heap R) (x : ref),
+  no_diag e -> wfop (length x) e -> NoDup x -> below (next h) x ->
+  get (run_ip e x x h) x = get (snd (run_oop e x h)) (fst (run_oop e x h)).
+Proof. exact (aliased_eq_oop_gen Rplus_comm Rmult_comm). Qed.
+Print Assumptions aliased_equals_out_of_place.
+
+(* The aliasing argument uses no law of arithmetic: T1 holds over ANY carrier with the Num
+   operations and a square root -- in particular for the executed rational instance and for
+   any model of IEEE floats. *)
+Theorem aliased_call_ok_any_carrier : forall (T : Type) (N : Num T) (S : Sqrt T)
+    (e : op T) (h : heap T) (x : ref),
+  wfop (length x) e -> NoDup x -> below (next h) x ->
+  get (run_ip e x x h) x = pure e (get h x)
+  /\ (forall i, (i < next h)%nat -> ~ In i x -> mem (run_ip e x x h) i = mem h i).
+Proof. intros T N S; exact aliased_gen. Qed.
+Print Assumptions aliased_call_ok_any_carrier.
+
+(* Instances spelled out for the two factories repaired by fix dd7df25 and for the wrapper
+   every Functional.convex_conj.proximal goes through. *)
+Theorem prox_l1_aliased_ok : forall (lam : R) (sigma : sval R) (g : option (list (list R))) (h : heap R) (x : ref),
+  NoDup x -> below (next h) x ->
+  get (call_l1 lam sigma g x x h) x = pure_l1 lam sigma g (get h x).
+Proof. intros lam sigma g h x Hn Hb; exact (proj1 (aliased_gen (OLeaf (LL1 lam sigma g)) h x I Hn Hb)). Qed.
+Theorem prox_l1_l2_aliased_ok : forall (lam sigma : R) (g : option (list (list R))) (h : heap R) (x : ref),
+  NoDup x -> below (next h) x ->
+  get (call_l1l2 lam sigma g x x h) x = pure_l1l2 lam sigma g (get h x).
+Proof. intros lam sigma g h x Hn Hb; exact (proj1 (aliased_gen (OLeaf (LL1L2 lam sigma g)) h x I Hn Hb)). Qed.
+Theorem proximal_convex_conj_aliased_ok : forall (sigma inv_sigma : sval R) (prox : op R) (h : heap R) (x : ref),
+  wfop (length x) prox -> NoDup x -> below (next h) x ->
+  get (run_ip (o_convex_conj sigma inv_sigma prox) x x h) x
+  = lin 1%R 1%R (scal (- 1)%R (mult_val sigma (pure prox (mult_val inv_sigma (get h x))))) (scal 1%R (get h x)).
+Proof.
+  intros sigma inv_sigma prox h x Hw Hn Hb.
+  exact (proj1 (aliased_gen (o_convex_conj sigma inv_sigma prox) h x (conj I (conj (conj I Hw) I)) Hn Hb)).
+Qed.
+
+(* non-vacuity: the hypotheses are met by a concrete heap and a tree of depth 4 *)
+Example hypotheses_satisfiable :
+  let e : op R := o_convex_conj (Sc 2%R) (Sc (/ 2)%R) (OLeaf (LL1 1%R (Sc 1%R) (Some [[1%R; 2%R]]))) in
+  let h : heap R := mkH (fun _ => [0%R; 0%R]) 1 in
+  wfop (length [0%nat]) e /\ NoDup [0%nat] /\ below (next h) [0%nat].
+Proof. cbn. repeat split; auto. constructor; [intros []|constructor]. repeat constructor. Qed.
